@@ -384,3 +384,42 @@ pub fn gen_c09(o: &mut Out, tier: &str, seed: u64) {
         }
     }
 }
+
+pub fn gen_c13(o: &mut Out, tier: &str, seed: u64) {
+    use solana_zk_sdk::encryption::auth_encryption::AeKey;
+    let mut r = Rng::new(seed, "c13");
+    let th = tier == "thorough";
+    let amounts: [u64; 10] = [0, 1, 255, 256, 65535, (1 << 32) - 1, 1 << 32, 1 << 63, u64::MAX - 1, u64::MAX];
+    let keys: Vec<Vec<u8>> = vec![vec![0u8; 16], vec![0xffu8; 16], r.bytes(16), r.bytes(16)];
+    for k in keys.iter() {
+        for a in amounts.iter().chain([r.u64(), r.u64()].iter()) {
+            // both encryptors (random nonce in the SDK, seeded nonce in the model), both decryptors
+            o.op("encrypt", &format!("ae encrypt {} {} {}", hex(k), a, hex(&r.bytes(8))));
+        }
+    }
+    // every single-bit flip of sampled ciphertexts; other keys
+    for _ in 0..(if th { 40 } else { 4 }) {
+        let kb = r.bytes(16);
+        let key = AeKey::try_from(kb.as_slice()).unwrap();
+        let a = *r.pick(&amounts);
+        let ct = key.encrypt(a).to_bytes();
+        o.op_exp("accepted", &format!("some:{}", a), &format!("ae dec {} {}", hex(&kb), hex(&ct)));
+        for bit in 0..288 {
+            let mut m = ct.to_vec();
+            m[bit / 8] ^= 1 << (bit % 8);
+            o.op_exp("bitflip", "none", &format!("ae dec {} {}", hex(&kb), hex(&m)));
+        }
+        for _ in 0..4 {
+            let mut k2 = kb.clone();
+            let i = r.below(128) as usize;
+            k2[i / 8] ^= 1 << (i % 8);
+            o.op_exp("other-key", "none", &format!("ae dec {} {}", hex(&k2), hex(&ct)));
+        }
+        o.op_exp("other-key", "none", &format!("ae dec {} {}", hex(&r.bytes(16)), hex(&ct)));
+        // lengths
+        for len in [0usize, 12, 35, 37, 72] {
+            let mut m = ct.to_vec(); m.resize(len, 0);
+            o.op_exp("length", "none", &format!("ae dec {} {}", hex(&kb), hex(&m)));
+        }
+    }
+}
